@@ -77,6 +77,7 @@ func (c09) Thresholds(tier string) map[string]int64 {
 		"range:bounds-at-the-edge-of-the-integer-range": 5000,
 		"range:edge-bounds-refused":                     500,
 		"range:edge-bounds-drawn":                       500,
+		"range:fractional-upper-bound":                  1000,
 		"program-with-a-non-string-jump":                50,
 		"runners-created-while-another-was-alive":       1500,
 		"extreme-search:draws-walked":                   500000000,
@@ -517,6 +518,9 @@ func (c09) ranges(c *core.Ctx, seed string) {
 	// refused, but a value it returns lies within the bounds as written
 	edge := []string{"9223372036854775807", "-9223372036854775808", "9223372036854775806", "4611686018427387904", "-4611686018427387904",
 		"9223372036854774784", "-9223372036854774784", "10000000000000000000", "-10000000000000000000", "0", "1", "-1"}
+	// fractional UPPER bounds (the lower one stays integral): refused, or a draw that still lies within the bounds
+	// as written - dice(2.5) is 1 or 2, dice(0.5) has no possible result
+	fractional := []string{"2.5", "0.5", "1.9", "6.5", "2.9999999999999996", "0.9999999999999999", "1.5"}
 	for k := 0; k < 4; k++ {
 		a, b := edge[r.Intn(len(edge))], edge[r.Intn(len(edge))]
 		call := "random_range(" + a + ", " + b + ")"
@@ -526,6 +530,16 @@ func (c09) ranges(c *core.Ctx, seed string) {
 			call, fa, fb = "dice("+b+")", 1, fb
 		} else if r.Chance(1, 3) {
 			call, fb = "random_range("+a+", "+a+")", fa
+		} else if r.Chance(1, 2) {
+			f := fractional[r.Intn(len(fractional))]
+			lo := r.Pick("0", "1", "-1", "-3")
+			call = "random_range(" + lo + ", " + f + ")"
+			fa, _ = strconv.ParseFloat(lo, 64)
+			fb, _ = strconv.ParseFloat(f, 64)
+			if r.Bool() {
+				call, fa = "dice("+f+")", 1
+			}
+			c.Feature("range:fractional-upper-bound")
 		}
 		es := "title: Start\n---\n<<call cap(1, " + call + ")>>\ndone\n===\n"
 		er, err, pan := mon.Create(nil, seed, []string{es})
